@@ -2,7 +2,8 @@
    way pkg/vm/emit and the compiler's writeJumps (pkg/compiler/codegen.go) write them.
 
    encoding of one instruction (opcode byte from gen/Opcodes.v, operand widths as VM/Decode.v reads them)
-     IPush z          emit.Int: PUSHM1 / PUSH0..PUSH16 for -1..16, else PUSHINT8/16/32/64/128/256 with the
+     IPush z          emit.Int: PUSHM1 / PUSH0..PUSH15 for -1..15 (emit.Int never writes PUSH16: 16 becomes
+                      PUSHINT8 16), else PUSHINT8/16/32/64/128/256 with the
                       smallest of these widths that holds z in two's complement, little-endian, sign-extended
      IPushB           PUSHT / PUSHF
      ILdLoc n ...     emit load/store: LDLOC0..LDLOC6 for n < 7, else LDLOC n (one operand byte; n < 256)
@@ -16,9 +17,11 @@
    holds for every such choice.  [shorten P] is the choice writeJumps makes: emit everything long, then turn
    into the short form exactly the jumps whose offset *in the all-long layout* fits a signed byte (new
    candidates that appear after the shortening are ignored, as in removeNOPs); [assemble P] uses it.
-   (The real long layout also contains the INITSLOT 0 0 / JMPL +5 place holders that writeJumps deletes, so
-   in border cases the real emitter keeps a jump long that [shorten] makes short; harness "c14" therefore
-   compares bytes with the widths read off the real script and counts how often [shorten] agrees.) *)
+   (The real long layout also contains the INITSLOT 0 0 / JMPL +5 place holders that writeJumps deletes
+   afterwards; they only lengthen distances, so in border cases the real emitter keeps a jump long that
+   [shorten] makes short, never the other way round.  Harness "c14" therefore compares bytes with the widths
+   read off the real script, checks that every jump [shorten] keeps long is long in the real script, and
+   counts the border cases.) *)
 From NG Require Import Common.Tactics Codec.Bigint gen.Opcodes Lang.MiniGo Lang.Target.
 Open Scope Z_scope.
 
@@ -28,7 +31,7 @@ Notation "'dO' p <- e ; k" := (match e with Some p => k | None => None end)
 (* ---------- constants ---------- *)
 Definition small_ops : list opcode :=
   [PUSHM1; PUSH0; PUSH1; PUSH2; PUSH3; PUSH4; PUSH5; PUSH6; PUSH7; PUSH8; PUSH9; PUSH10; PUSH11; PUSH12;
-   PUSH13; PUSH14; PUSH15; PUSH16].
+   PUSH13; PUSH14; PUSH15].
 Definition small_push (z : Z) : opcode := nth (Z.to_nat (z + 1)) small_ops PUSH0.
 
 (* z fits w bytes of two's complement *)
@@ -36,7 +39,7 @@ Definition fits_bytes (w : nat) (z : Z) : bool :=
   (- 2 ^ (8 * Z.of_nat w - 1) <=? z) && (z <? 2 ^ (8 * Z.of_nat w - 1)).
 
 Definition push_enc (z : Z) : option (opcode * list Z) :=
-  if (-1 <=? z) && (z <=? 16) then Some (small_push z, [])
+  if (-1 <=? z) && (z <=? 15) then Some (small_push z, [])
   else if fits_bytes 1 z then Some (PUSHINT8, le_bytes 1 z)
   else if fits_bytes 2 z then Some (PUSHINT16, le_bytes 2 z)
   else if fits_bytes 4 z then Some (PUSHINT32, le_bytes 4 z)
@@ -115,7 +118,7 @@ Definition enc (tgt : nat -> Z) (n : nat) (o : Z) (long : bool) (i : instr) : op
 
 (* size in bytes; does not depend on the offsets *)
 Definition push_size (z : Z) : Z :=
-  if (-1 <=? z) && (z <=? 16) then 1
+  if (-1 <=? z) && (z <=? 15) then 1
   else if fits_bytes 1 z then 2 else if fits_bytes 2 z then 3 else if fits_bytes 4 z then 5
   else if fits_bytes 8 z then 9 else if fits_bytes 16 z then 17 else 33.
 Definition slot_size (n : nat) : Z := if (n <? 7)%nat then 1 else 2.
@@ -164,6 +167,7 @@ Fixpoint shorten_go (tgt : nat -> Z) (o : Z) (P : code) : list bool :=
 Definition shorten (P : code) : list bool := shorten_go (off [] P) 0 P.
 
 Definition assemble (P : code) : option (list Z) := assemble_with (shorten P) P.
+
 
 (* widths are only looked at for jumps and calls: a normal form, to compare two choices *)
 Fixpoint norm_ws (ws : list bool) (k0 : nat) (P : code) : list bool :=
